@@ -56,8 +56,8 @@ void h_fmt_escapes(void)
     __CPROVER_assert(r == (req != 0), "C12: XML 1.0: escaped set of the mode is exactly spec_escape(mode)");
   } else if (mode == XMLFormatter_NoEscapes) {
     /* not consulted by formatBuf in this mode (see note): only "nothing outside the XML 1.1 controls" */
-    __CPROVER_assert(!r || spec_xml11_restricted(c) || c == 0x85,
-                     "C12: XML 1.1 NoEscapes: answers true at most for C0/C1 controls (never consulted by formatBuf)");
+    __CPROVER_assert(!r || spec_xml11_restricted(c) || spec_xml11_eol_extra(c),
+                     "C12: XML 1.1 NoEscapes: answers true at most for C0/C1 controls and NEL/LSEP (never consulted by formatBuf)");
   } else {
     /* XML 1.1, escaping modes */
     __CPROVER_assert(!req || r, "C12: XML 1.1: every character of spec_escape(mode) is escaped");
